@@ -142,6 +142,45 @@ Conserved(pre, post, t, r, e, p) ==
     /\ IsNat(c)
     /\ Total(pre, p) = Add(Total(post, p), Add(Add(c, t.tips), Burns(r, e)))
 
+---------------------------------------------------------------------------
+(* Blocks.  Several transactions are applied one after the other to ONE block state (and, in the   *)
+(* code, with one VM and one contract environment per block).  Only the state after the block is  *)
+(* observable; the state between two transactions is the SPECIFIED outcome of the earlier ones,   *)
+(* carried on by these operators, so that at the end of the block every account's change must be  *)
+(* the sum of what the individual transactions asked for, the fees and the tips - whatever the    *)
+(* earlier transactions left behind in the execution context.                                     *)
+
+(* a transaction that is not a contract transaction: p = [from, to, amount, fee, tips] (fee as charged by the node) *)
+PlainOp(L, p) == LET L1 == Move(L, p.from, p.to, p.amount)
+                 IN Put(L1, p.from, [Get(L1, p.from) EXCEPT !.bal = Monus(@, Plus(p.fee, p.tips)), !.nonce = @ + 1])
+
+(* a contract transaction whose post-state is not observed: charged what the receipt says *)
+MidCharge(t, r) == Add(t.sizeFee, r.gasCost)
+MidOp(L, t, r, e) == ChargeOp(Settled(L, t, r, e), t, MidCharge(t, r))
+
+(* what leaves the ledger (proposer excluded) with a transaction *)
+Spent(t, r, e, charged) == Add(Add(charged, t.tips), Burns(r, e))
+
+LedgerNat(L) == \A a \in DOMAIN L : IsNat(L[a].bal) /\ IsNat(L[a].cstake) /\ IsNat(L[a].stake)
+
+(* clauses that can be decided without observing the post-state *)
+MidBroken(L, t, r, e, p) ==
+    LET L2 == MidOp(L, t, r, e) IN
+    IF ~(\A a \in DOMAIN e.req : IsNat(e.req[a])) \/ ~LedgerNat(L2) THEN "NoOverspend"
+    ELSE IF ~ReceiptTruthful(t, r, e) THEN "ReceiptTruthful"
+    ELSE IF ~OutcomeAgrees(t, r, e) THEN "OutcomeAgrees"
+    ELSE IF ~StoreDetermined(t, r, e) THEN "MidNotDetermined"
+    ELSE IF ~ReqAgree(L, t, r, e) THEN "SuccessAppliesAll"
+    ELSE IF ~GasWithinBought(t, r) THEN "GasWithinBought"
+    ELSE IF Total(L, p) # Add(Total(L2, p), Spent(t, r, e, MidCharge(t, r))) THEN "Conserved"
+    ELSE ""
+
+(* over the whole block: the ledger (proposer excluded) shrinks exactly by what the transactions   *)
+(* paid and burnt - in particular it never grows                                                  *)
+BlockConserved(bpre, post, spent, p) ==
+    /\ LedgerNat(post) /\ IsNat(spent)
+    /\ Total(bpre, p) = Add(Total(post, p), spent)
+
 (* name of the first clause an observed step breaks ("" = none) *)
 Broken(pre, post, t, r, e, p) ==
     IF ~NoOverspend(post, e) THEN "NoOverspend"
@@ -169,6 +208,7 @@ CONSTANTS Names,          \* account names of the model
           GasVals,        \* gas limits the sender may buy
           MaxSteps,       \* bound on the run steps of one transaction
           MaxDepth,       \* bound on nested sub-calls
+          MaxTx,          \* transactions per block (behaviour)
           Bug             \* "none", or the name of a deliberately broken step (specification self-test)
 
 VARIABLES led,     \* the ledger
@@ -179,8 +219,12 @@ VARIABLES led,     \* the ledger
           gas, steps,
           eff,     \* effects as the probes would report them (filled at the end of the run)
           shok,    \* the contract code's own outcome (what the recording environment would see)
-          acts     \* kinds of run steps taken (for the exported coverage class)
-vars == <<led, pre0, pc, tx, rc, frames, gas, steps, eff, shok, acts>>
+          acts,    \* kinds of run steps taken (for the exported coverage class)
+          blk      \* the execution context of the block, shared by its transactions:
+                   \*   cache: the balances the embedded contract environment still holds from the last committed run
+                   \*          (EnvImp.Commit flushes its buffers but does not clear them),
+                   \*   ntx: number of the current transaction, out: a balance was changed outside the environment
+vars == <<led, pre0, pc, tx, rc, frames, gas, steps, eff, shok, acts, blk>>
 
 N(i) == FromInt(i)
 One == N(1)
@@ -199,6 +243,7 @@ Init == /\ led \in InitLedgers /\ pre0 = led /\ pc = "idle"
         /\ tx = [kind |-> "none"] /\ rc = [success |-> FALSE, gasUsed |-> 0, gasCost |-> Zero, oog |-> FALSE]
         /\ frames = <<>> /\ gas = 0 /\ steps = 0 /\ shok = TRUE /\ acts = {}
         /\ eff = [req |-> <<>>, burnt |-> Zero, term |-> Zero, deployed |-> {}, sh |-> NoShadow]
+        /\ blk = [cache |-> <<>>, ntx |-> 1, out |-> FALSE]
 
 SizeFee == One
 Fpg == One
@@ -214,20 +259,22 @@ Submit(kind, wasm, amt, gl, tips) ==
        IN /\ Leq(Add(Add(t.amount, t.maxFee), t.tips), led[Sender].bal)
           /\ tx' = t
     /\ pre0' = led /\ pc' = "escrow"
-    /\ UNCHANGED <<led, rc, frames, gas, steps, eff, shok, acts>>
+    /\ UNCHANGED <<led, rc, frames, gas, steps, eff, shok, acts, blk>>
 
 RootFrame == [ctx |-> Target, par |-> Sender, pay |-> Zero, req |-> <<>>, wr |-> <<>>, dep |-> {}, burnt |-> Zero, moved |-> Zero]
 
+(* vm.env.Reset() before every embedded run (wasm runs get an environment of their own) *)
 Escrow == /\ pc = "escrow"
           /\ led' = EscrowOp(led, tx)
           /\ frames' = <<RootFrame>> /\ gas' = 0 /\ steps' = 0 /\ pc' = "run"
+          /\ blk' = IF tx.wasm \/ Bug = "stale_env" THEN blk ELSE [blk EXCEPT !.cache = <<>>]
           /\ UNCHANGED <<pre0, tx, rc, eff, shok, acts>>
 
 D == Len(frames)
 Ctx == frames[D].ctx
 
 RECURSIVE BalAt(_, _)
-BalAt(i, a) == IF i = 0 THEN Get(led, a).bal
+BalAt(i, a) == IF i = 0 THEN (IF ~tx.wasm /\ a \in DOMAIN blk.cache THEN blk.cache[a] ELSE Get(led, a).bal)   \* EnvImp.getBalance
                ELSE IF a \in DOMAIN frames[i].req THEN frames[i].req[a] ELSE BalAt(i - 1, a)
 CurBal(a) == BalAt(D, a)
 HasCode(a) == Get(led, a).code \/ \E i \in 1..D : a \in frames[i].dep
@@ -237,12 +284,12 @@ SetReq(f, a, v) == [f EXCEPT !.req = [x \in DOMAIN f.req \cup {a} |-> IF x = a T
 (* every run step costs one unit of gas; a step that does not fit into the bought gas ends the run *)
 Fits == gas + 1 <= tx.gl
 Spend(k) == /\ gas' = gas + 1 /\ steps' = steps + 1 /\ acts' = acts \cup {k}
-            /\ UNCHANGED <<led, pre0, pc, tx, rc, eff, shok>>
+            /\ UNCHANGED <<led, pre0, pc, tx, rc, eff, shok, blk>>
 
 OutOfGas == /\ pc = "run" /\ steps < MaxSteps /\ ~Fits
             /\ rc' = [success |-> FALSE, gasUsed |-> tx.gl, gasCost |-> Mul(N(tx.gl), Fpg), oog |-> TRUE]
             /\ pc' = "settle" /\ acts' = acts \cup {"outofgas"}
-            /\ UNCHANGED <<led, pre0, tx, frames, gas, steps, eff, shok>>
+            /\ UNCHANGED <<led, pre0, tx, frames, gas, steps, eff, shok, blk>>
 
 (* Send: guarded by the balance check of env.Send / WasmEnv.SubBalance *)
 RunSend(a, amt) ==
@@ -290,7 +337,7 @@ RunRet(ok) ==
                    ELSE SetReq(par, ch.par, Plus(BalAt(D - 1, ch.par), ch.pay))       \* failed callee: drop its buffer, refund
        IN frames' = [i \in 1..(D - 1) |-> IF i = D - 1 THEN back ELSE frames[i]]
     /\ acts' = acts \cup {IF ok THEN "subok" ELSE "subfail", IF D = 3 THEN "depth2" ELSE "depth1"}
-    /\ UNCHANGED <<led, pre0, pc, tx, rc, gas, steps, eff, shok>>
+    /\ UNCHANGED <<led, pre0, pc, tx, rc, gas, steps, eff, shok, blk>>
 
 Half(x) == IF x = Zero THEN Zero ELSE N(x[1] \div 2)
 
@@ -312,28 +359,49 @@ Finish(ok, dest) ==
     /\ shok' = ok
     /\ rc' = [success |-> ok, gasUsed |-> gas, gasCost |-> Mul(N(gas), Fpg), oog |-> FALSE]
     /\ pc' = "settle"
-    /\ UNCHANGED <<led, pre0, tx, gas, steps, acts>>
+    /\ UNCHANGED <<led, pre0, tx, gas, steps, acts, blk>>
+
+(* Commit writes the whole balance buffer of the environment: what this run requested and - if the *)
+(* environment was not reset - what earlier runs of the block left in it                          *)
+Flushed(L) == IF tx.wasm THEN L
+              ELSE [a \in DOMAIN L \cup DOMAIN blk.cache |->
+                       IF a \in DOMAIN blk.cache /\ a \notin DOMAIN eff.req THEN [Get(L, a) EXCEPT !.bal = blk.cache[a]] ELSE Get(L, a)]
+Cached == IF tx.wasm THEN blk
+          ELSE [blk EXCEPT !.cache = [a \in DOMAIN blk.cache \cup DOMAIN eff.req |-> IF a \in DOMAIN eff.req THEN eff.req[a] ELSE blk.cache[a]]]
 
 Commit == /\ pc = "settle" /\ (rc.success \/ Bug = "commit_on_fail")
-          /\ led' = CommitOp(led, tx, eff)
-          /\ pc' = "charge"
+          /\ led' = Flushed(CommitOp(led, tx, eff))
+          /\ pc' = "charge" /\ blk' = Cached
           /\ UNCHANGED <<pre0, tx, rc, frames, gas, steps, eff, shok, acts>>
 
 Rollback == /\ pc = "settle" /\ ~rc.success /\ Bug # "commit_on_fail"
             /\ led' = IF Bug = "no_refund" THEN led ELSE RefundOp(led, tx)
-            /\ pc' = "charge"
+            /\ pc' = "charge" /\ blk' = IF tx.wasm THEN blk ELSE [blk EXCEPT !.cache = <<>>]
             /\ UNCHANGED <<pre0, tx, rc, frames, gas, steps, eff, shok, acts>>
 
 Charge == /\ pc = "charge"
           /\ led' = ChargeOp(led, tx, IF Bug = "no_gas_fee" THEN tx.sizeFee ELSE Add(tx.sizeFee, rc.gasCost))
           /\ pc' = "reward"
-          /\ UNCHANGED <<pre0, tx, rc, frames, gas, steps, eff, shok, acts>>
+          /\ UNCHANGED <<pre0, tx, rc, frames, gas, steps, eff, shok, acts, blk>>
 
 (* block reward and the proposer's share of fee and tips go to the proposer only *)
 Reward == /\ pc = "reward"
           /\ led' = Put(led, Proposer, [led[Proposer] EXCEPT !.bal = Add(@, N(2)), !.stake = Add(@, One)])
           /\ pc' = "done"
-          /\ UNCHANGED <<pre0, tx, rc, frames, gas, steps, eff, shok, acts>>
+          /\ UNCHANGED <<pre0, tx, rc, frames, gas, steps, eff, shok, acts, blk>>
+
+(* between two transactions of a block a balance may change outside any contract environment   *)
+(* (plain transfer, payment into a contract, somebody's fee) ...                                *)
+(* (only changes of accounts the environment still holds something about matter here)          *)
+Outside(a, b) == /\ pc = "done" /\ blk.ntx < MaxTx /\ ~blk.out /\ a # b /\ Leq(One, led[a].bal)
+                 /\ (a \in DOMAIN blk.cache \/ b \in DOMAIN blk.cache)
+                 /\ led' = Move(led, a, b, One) /\ pc' = "between" /\ blk' = [blk EXCEPT !.out = TRUE]
+                 /\ UNCHANGED <<pre0, tx, rc, frames, gas, steps, eff, shok, acts>>
+(* ... and the next transaction of the block runs in the same execution context *)
+NextTx == /\ pc \in {"done", "between"} /\ blk.ntx < MaxTx
+          /\ pc' = "idle" /\ blk' = [blk EXCEPT !.ntx = @ + 1]
+          /\ eff' = [req |-> <<>>, burnt |-> Zero, term |-> Zero, deployed |-> {}, sh |-> NoShadow]
+          /\ UNCHANGED <<led, pre0, tx, rc, frames, gas, steps, shok, acts>>
 
 Next == \/ \E k \in {"deploy", "call", "terminate"}, w \in BOOLEAN, a \in AmtVals, g \in GasVals, t \in {0, 1} : Submit(k, w, a, g, t)
         \/ Escrow
@@ -346,6 +414,7 @@ Next == \/ \E k \in {"deploy", "call", "terminate"}, w \in BOOLEAN, a \in AmtVal
         \/ \E ok \in BOOLEAN : RunRet(ok)
         \/ \E ok \in BOOLEAN, dest \in {Sender, Rcpt} : Finish(ok, dest)
         \/ Commit \/ Rollback \/ Charge \/ Reward
+        \/ NextTx \/ \E a, b \in Names \ {Proposer} : Outside(a, b)
 
 Spec == Init /\ [][Next]_vars
 
@@ -353,6 +422,6 @@ Spec == Init /\ [][Next]_vars
 ClausesHold == pc = "done" => Broken(pre0, led, tx, rc, eff, Proposer) = ""
 NoDrift == pc = "done" => ~Drift(pre0, led, tx, rc, eff)
 
-TypeOK == /\ pc \in {"idle", "escrow", "run", "settle", "charge", "reward", "done"}
+TypeOK == /\ pc \in {"idle", "escrow", "run", "settle", "charge", "reward", "done", "between"}
           /\ \A a \in DOMAIN led : IsNat(led[a].bal) /\ IsNat(led[a].cstake)
 =============================================================================
